@@ -776,6 +776,8 @@ func TestWorker(t *testing.T) {
 			runC11(s, cfg)
 		case "C12":
 			runC12(s, cfg)
+		case "C07":
+			runC12For(s, "C07", cfg)
 		default:
 			panic("fltsim: unknown property " + prop)
 		}
